@@ -605,4 +605,34 @@ theorem enumNamesUnique_of_nodup (vals : EnumDesc) (nv : Bool) (h : namesNodup v
     rw [this]; simpa using hp
 
 
+/-! ### streams -/
+
+theorem decodeWithScratch_fresh (ops : FloatOps) (o : Opts) (c : Card) (k : Kind) (j : J) :
+    (decodeWithScratch ops o c k [] j).1 = decode ops o c k j := by
+  cases c <;> cases j <;> simp [decodeWithScratch, decode, unmarshalMap]
+
+theorem decodeStreamFrom_fresh (ops : FloatOps) (o : Opts) (c : Card) (k : Kind) (js : List J) :
+    ∀ scratch, decodeStreamFrom ops o c k true scratch js = js.map (decode ops o c k) := by
+  induction js with
+  | nil => intro s; rfl
+  | cons j rest ih =>
+    intro s
+    simp only [decodeStreamFrom, if_true, List.map_cons, decodeWithScratch_fresh, ih]
+
+theorem encodeStreamFrom_results (ops : FloatOps) (o : Opts) (k : Kind) (fs : List Field) :
+    ∀ written, (encodeStreamFrom ops o k written fs).2 = fs.map (encode ops o k) := by
+  induction fs with
+  | nil => intro w; rfl
+  | cons f rest ih => intro w; simp only [encodeStreamFrom, List.map_cons, ih]
+
+theorem encodeStreamFrom_written (ops : FloatOps) (o : Opts) (k : Kind) (fs : List Field) :
+    ∀ written, (encodeStreamFrom ops o k written fs).1 = written ++ okTrees (fs.map (encode ops o k)) := by
+  induction fs with
+  | nil => intro w; simp [encodeStreamFrom, okTrees]
+  | cons f rest ih =>
+    intro w
+    simp only [encodeStreamFrom, List.map_cons, ih]
+    cases encode ops o k f <;> simp [okTrees]
+
+
 end GB.C09
